@@ -61,6 +61,23 @@ def corruptions(rng, S, n_each=2):
         out.append(("strand-complex-complex-keyword", doc(base + [f"complex SC :", f"{s1} {s1}", f"{'.' * n1} + {'.' * n1}"])))
         out.append(("composite-in-kernel", doc(base + [f"KC = {s1}( ) {s1}*"])))
         out.append(("strand-redeclared", doc(base + [f"strand {s1} = {doms[0]} {doms[0]} {doms[0]} {doms[0]}"])))
+        # the same composition under a second name (both keywords), and a name and a composition that belong to two strands
+        comp1 = " ".join(S.strands[s1])
+        out.append(("strand-same-content-other-name", doc(base + [f"strand dup_{s1} = {comp1}"])))
+        out.append(("strand-same-content-other-name-sup", doc(base + [f"sup-sequence dup2_{s1} = {comp1}"])))
+        if len(names) > 1:
+            out.append(("strand-name-and-content-of-two", doc(base + [f"strand {names[1]} = {comp1}"])))
+        # strand notation with the strand breaks of the structure NOT where the strands end (balanced, right total length)
+        for a_, b_ in ((s1, names[-1]), (names[-1], s1)):
+            na, nb = len(S.strands[a_]), len(S.strands[b_])
+            for _ in range(3):
+                k_ = rng.randrange(0, na + nb + 1)
+                flat = [rng.choice(".()") for _ in range(na + nb)]
+                misplaced = "".join(flat[:k_]) + "+" + "".join(flat[k_:])
+                out.append(("strand-complex-break-misplaced", doc(base + [f"structure SM = {a_} + {b_} : {misplaced}"])))
+            if na + nb >= 4:
+                out.append(("strand-complex-break-misplaced-balanced", doc(base + [f"structure SM = {a_} + {b_} : " + "(" + "+" + "()" + "." * (na + nb - 4) + ")"])))
+                out.append(("strand-complex-break-misplaced-balanced", doc(base + [f"structure SM = {a_} + {b_} : " + "(" * 1 + "." * (na + nb - 2) + "+" + ")"])))
     if doms:
         d = doms[0]
         out.append(("degenerate-empty-strand", doc(base + [f"E1 = {d} +"])))
@@ -112,6 +129,10 @@ FIXED_DOCUMENTS = [
                                "strand u = z = 0\nX = s( + ) z\nY = t a\nstructure Z = s + u : ...+.\nW = a( z( n + ) ) @i 1 nM\n"
                                "state X = [X, Y]\nreaction [bind21 = 1 /M/s] X + Y -> Z\n"),
     ("huge-length-wrong-strand-length", "length a = 99999999999999999999999\nstrand s = a a* : 5\nX = s\n"),
+    # strands of unequal length, break of the structure misplaced: a paired locus that exists in the structure only
+    ("strand-complex-break-misplaced-fixed", "length a = 5\nlength b = 6\nlength c = 7\nstrand s1 = a b\nstrand s2 = b* a* c\n"
+                                             "structure X = s1 + s2 : (+().)\n"),
+    ("strand-same-content-fixed", "length a = 5\nlength b = 6\nstrand A = a b\nsup-sequence ab = a b\n"),
 ]
 
 
